@@ -16,6 +16,7 @@ EXPLANATION = (
     "builder hands its whole input to it."
     ' (R20.7) the batch trackers judge admission on the state the merge lands on: predict waits for the previous batch before advancing epochs and querying distances (monitor protocol shared with C06).'
     ' (R20.8) the regulariser of dist_in_2r is the public constant EPS = 1e-5; (R20.9) the epoch gap counts every predict call of the scene, empty frames included.')
+EXPLANATION += ' R20.2 also requires that entries of the constraint table are never rewritten in place; (R20.10) the bounding radius is computed from the current half extents.'
 NOT_DECIDED = ["tracker-level equivalence with/without non-binding constraints (two-run comparison)",
                "numeric value of the centre distance"]
 ASSUMPTIONS = ["std sort_by is stable and dedup_by keeps the first of equal runs", "rustc nightly MIR construction"]
@@ -35,6 +36,10 @@ def run(ctx):
     ctx.rule('R20.3i', '(shared with C03) idle bound')
     ctx.floor('R20.3', T.rule_compatible(ctx, 'R20.3s', 'R20.3i', 'R20.3'), 6)
     r4(ctx)
+    from props import C08
+    ctx.rule('R20.10', 'the bounding radius dist_in_2r / too_far divide by is computed from the CURRENT half extents of the box '
+                       '(aspect and height are public, assignable fields: a radius stored at construction goes stale)')
+    ctx.floor('R20.10', C08.radius_rule(ctx, 'R20.10'), 1)
     # batch trackers: admission is judged against the track the detection is then attached to - the previous batch is
     # finished (merged) before the distances of the next one are computed (monitor protocol, shared with C06 / C05)
     ctx.rule('R20.9', 'the epoch gap the table is consulted with counts every predict call of the scene, empty frames included')
@@ -249,6 +254,24 @@ def writer_clauses(ctx, R, b, tag):
         n += 1
         ctx.check(k == elem_roles(F)[0], R, b, tag + 'dedup:by-gap', 'duplicates identified by field .%s' % k,
                   'duplicates are identified by field .%s instead of equal gaps' % k, c.ln)
+    # the limits stored are the limits configured: entries are pushed, ordered and de-duplicated, never rewritten in place
+    # ("the limit configured for the smallest gap not below d" - a table made monotone by a running maximum answers with
+    # a limit nobody configured)
+    from lib import all_closures
+    patch = []
+    for hb in [b] + all_closures(F, b):
+        for c in hb.find_calls('iter_mut', 'get_mut', 'index_mut', 'last_mut', 'first_mut', 'for_each', 'as_mut_slice',
+                               'split_at_mut', 'chunks_mut', 'windows', 'get_unchecked_mut', 'swap', 'fill'):
+            if c.name in ('for_each', 'windows'):
+                continue
+            if c.args and c.args[0].get('k') in ('copy', 'move'):
+                ty = str(hb.locals[c.args[0]['pl']['l']])
+                if '(usize, f32)' in ty:
+                    patch.append(c)
+    n += 1
+    ctx.check(not patch, R, b, tag + 'limits-never-rewritten-in-place', '',
+              'entries of the constraint table are rewritten in place (%s): the limit found for a gap is then not the one '
+              'that was configured for it' % sorted({c.name for c in patch}), patch[0].ln if patch else '')
     return n
 
 
